@@ -43,6 +43,7 @@ properties! {
     "C02" => c02,
     "C03" => c03,
     "C04" => c04,
+    "C05" => c05,
     "C11" => c11,
 }
 
